@@ -1,2 +1,74 @@
+import PelProofs.Ilog
+import PelGen.Live
+/-
+  C14 — ILOG decoding reports every entry with the first matching table message.
+  Property theorems only; helper lemmas live in PelProofs/Ilog.lean.
+-/
 namespace Pel.C14
+
+/-! Pins -/
+theorem pin_entry_size : ∀ v ∈ Live.ilog_ILOG_ENTRY_SIZE, v = 8 := by decide
+theorem pin_error_mask : ∀ v ∈ Live.ilog_ERROR_MASK, v = 0xF0000000 := by decide
+theorem pin_error_value : ∀ v ∈ Live.ilog_ERROR_VALUE, v = 0xE0000000 := by decide
+theorem pin_reported_mask : ∀ v ∈ Live.ilog_REPORTED_MASK, v = 0x00040000 := by decide
+theorem pin_reported_value : ∀ v ∈ Live.ilog_REPORTED_VALUE, v = 0x00040000 := by decide
+
+/-- ★ For every table and every sequence of entries followed by a partial entry (fewer than 8 bytes), the
+    decoder outputs the two heading lines and exactly one line per entry that is not all zero, in order,
+    each as the property describes (`specIlog`); the trailing partial entry is ignored. -/
+theorem entries_roundtrip (tbl : List PteEntry) (es : List IlogEntry) (tail : Bytes)
+    (hes : ∀ e ∈ es, e.WF) (ht : tail.length < 8) :
+    parseIlog tbl (es.flatMap IlogEntry.enc ++ tail) = specIlog tbl es := by
+  unfold parseIlog specIlog
+  rw [ilogLoop_entries tbl es tail hes ht]
+
+/-- every byte string is such a sequence: ⌊|b|/8⌋ entries and a tail -/
+theorem decompose (b : Bytes) (hb : ∀ x ∈ b, x < 256) :
+    ∃ (es : List IlogEntry) (tail : Bytes), (∀ e ∈ es, IlogEntry.WF e) ∧ tail.length < 8 ∧
+      b = es.flatMap IlogEntry.enc ++ tail ∧ es.length = b.length / 8 := by
+  exact decompose_aux b.length b (Nat.le_refl _) hb
+
+/-- ★ the description is that of the FIRST table entry (header-file order) matching as is or, for a reported
+    error, with the reported flag cleared -/
+theorem first_match (tbl : List PteEntry) (pte : Nat) (h : pte < 2 ^ 32) :
+    getEntry tbl pte = tbl.find? (fun e => specMatches e pte) := by
+  exact getEntry_eq_find tbl pte h
+
+/-- parameter `k ∈ 1..4` is byte `k` of the PTE, big-endian -/
+theorem params_from_bytes (pte k : Nat) (h : pte < 2 ^ 32) (hk : 1 ≤ k ∧ k ≤ 4) :
+    pteByte pte k = pte / 256 ^ (4 - k) % 256 := by
+  exact pteByte_div pte k h hk
+
+/-- the timestamp text is H:MM:SS of the stored second counter, dashes exactly for 0xFFFF -/
+theorem timestamp_fields (t : Nat) (h : t < 0xFFFF) :
+    ∃ hh mm ss, specTimestamp t = fmtDecSp 2 hh ++ [58] ++ fmtDec0 2 mm ++ [58] ++ fmtDec0 2 ss ∧
+      hh * 3600 + mm * 60 + ss = t ∧ mm < 60 ∧ ss < 60 := by
+  refine ⟨t / 3600, t % 3600 / 60, t % 60, ?_, by omega, by omega, by omega⟩
+  unfold specTimestamp
+  rw [if_neg (by omega)]
+
+theorem timestamp_dashes : specTimestamp 0xFFFF = s "--------" := by
+  rfl
+
+/-- every line shows the sequence number and the PTE exactly as stored: the text at columns 9..12 and
+    14..21 parses back to the stored values -/
+theorem line_fields (tbl : List PteEntry) (e : IlogEntry) (he : e.WF) (l : Text)
+    (h : specIlogLine tbl e = some l) :
+    l.take 8 = specTimestamp e.ts ∧
+    parseHexText ((l.drop 9).take 4) = e.seq ∧ parseHexText ((l.drop 14).take 8) = e.pte := by
+  obtain ⟨hts, hseq, hpte⟩ := he
+  have h16a : (16:Nat) ^ 4 = 2 ^ 16 := by decide
+  have h16b : (16:Nat) ^ 8 = 2 ^ 32 := by decide
+  unfold specIlogLine at h
+  cases hd : specDescription tbl e.pte with
+  | none => rw [hd] at h; simp at h
+  | some m =>
+    rw [hd] at h
+    simp only [Option.map_some, Option.some.injEq] at h
+    subst h
+    obtain ⟨c1, c2, c3⟩ := columns (specTimestamp e.ts) (hexFix 4 e.seq) (hexFix 8 e.pte) m
+      (specTimestamp_length e.ts hts) (hexFix_length _ _) (hexFix_length _ _)
+    rw [c1, c2, c3, parseHexText_hexFix 4 e.seq (by omega), parseHexText_hexFix 8 e.pte (by omega)]
+    exact ⟨rfl, rfl, rfl⟩
+
 end Pel.C14
